@@ -30,6 +30,7 @@ warnings.filterwarnings("ignore")
 def main():
     depth = int(sys.argv[1]) if len(sys.argv) > 1 else 2
     natoms = int(sys.argv[2]) if len(sys.argv) > 2 else 2
+    quick = "--quick" in sys.argv
     import infocf  # noqa: F401
     import z3
     from pysmt.shortcuts import Symbol, And, Or, Not, TRUE, FALSE, Solver
@@ -70,8 +71,11 @@ def main():
     forms = uniq
     conds = {}
     k = 0
+    small = set(leaves) | set(forms[-13:]) if depth >= 2 else set(forms)
     for A in forms:
         for B in forms:
+            if quick and A not in small and B not in small:
+                continue            # quick tier: at least one side from the small set (leaves + special forms)
             k += 1
             conds[k] = Conditional(B, A, "(%s|%s)" % (B.serialize(), A.serialize()))
     bb = BeliefBase(names, conds, "tv")
